@@ -51,10 +51,11 @@ class WindowOracle:
         self.fails = []
         self.req_ids = {}      # (ep, spi_i, spi_r) -> list of request ids in emission order
         self.n = 0
+        self.replays = True
 
     def __call__(self, pair, action, sent):
         self.check_stamps(pair, action, sent)
-        if action[0] not in ('deliver', 'replay') or not pair.history:
+        if not self.replays or action[0] not in ('deliver', 'replay') or not pair.history:
             return
         # replay the datagrams this endpoint has already received
         for ep in (pair.A, pair.B):
@@ -204,6 +205,10 @@ def run_oracle(ctx, runs):
             for ep in (p.A, p.B):
                 ep.creation_objs = (lambda ep=ep: [o for o in _all_sas(ep)] + made[id(ep)])
             orc = WindowOracle(ctx)
+            # a RESPONSE that a key-holding peer sends although nothing is outstanding is not a duplicated, reordered or
+            # delayed message of the exchange (C08's hypothesis): the code tears the IKE_SA down on it, which is an
+            # effect; only the numbering / stamping clauses, which are unconditional, are checked on those histories
+            orc.replays = 'unsolicited_response' not in name
             p.hooks.append(orc)
             patcher = mock.patch.object(_ikesa.IkeSa, '__init__', init)
             patcher.start()
